@@ -14,10 +14,9 @@
       siter_index_spec, siter_replace_spec/_none, siter_remove_spec/_none, siter_add_spec   after a yield
       szip_pos, szip_init_pos, szip_next_end, szip_next_yield, szip_drain, szip_drain_spec, szip_fresh_complete
 
-    Contract (one structural change per yield): [siter_remove_spec] and [siter_add_spec] are stated for an iterator whose
-    current node is the LAST node of [done] (nothing added since the yield). A second add after the same yield is outside
-    the contract: the C code overwrites current->next, so the node added first drops out of the chain while size counts it
-    (model and code agree on the ensuing NULL dereference). A remove after an add would leave prev stale. *)
+    Contract: [siter_remove_spec] is stated for an iterator whose current node is the LAST node of [done] (nothing added
+    since the yield): a remove after an add would leave prev stale. [siter_add_spec] holds after any number of earlier adds
+    behind the same yielded element: every new node is linked directly behind the yielded one, no node is lost. *)
 From Coq Require Import Permutation.
 From CC Require Import Base.Prelude Base.ListMem Base.Alloc Base.AllocProofs.
 From CC Require Import Generated.Status Generated.Guards List_.ListModel List_.ListHeap List_.ListProofs1.
@@ -205,21 +204,39 @@ Qed.
 Lemma siter_remove_none s it a : si_current it = 0 -> siter_remove s it a = Ok (CC_ERR_VALUE_NOT_FOUND, 0, s, it, a).
 Proof. intros H. unfold siter_remove. rewrite H. reflexivity. Qed.
 
-(** add (directly after the yield): the new node follows the yielded one, next() continues with the old successor;
-    current and prev are NOT touched, so replace / remove keep acting on the yielded element (documented semantics),
-    and the next call of next() steps prev over the new node. *)
-Lemma siter_add_spec s it done x d rest a F v :
-  srep s (done ++ (x, d) :: rest) -> slown a s (done ++ (x, d) :: rest) F ->
-  sit_pos it (done ++ [(x, d)]) rest -> si_current it = x ->
+(** With duplicate-free ids a node occurs at one position only. *)
+Lemma mid_split_unique (D : list (N * N)) : forall D' A A' x d d',
+  NoDup (ids (D ++ (x, d) :: A)) -> D ++ (x, d) :: A = D' ++ (x, d') :: A' -> D = D' /\ d = d' /\ A = A'.
+Proof.
+  induction D as [|p D0 IH]; intros D' A A' x d d' Hnd E.
+  - destruct D' as [|p' D'']; cbn [app] in E.
+    + inversion E; auto.
+    + exfalso. inversion E; subst. cbn [app ids map fst] in Hnd. apply NoDup_cons_iff in Hnd. destruct Hnd as [Hx _].
+      apply Hx. change (map fst (D'' ++ (x, d') :: A')) with (ids (D'' ++ (x, d') :: A')). rewrite ids_app. apply in_or_app. right. left. reflexivity.
+  - destruct D' as [|p' D'']; cbn [app] in E.
+    + exfalso. inversion E; subst. cbn [app ids map fst] in Hnd. apply NoDup_cons_iff in Hnd. destruct Hnd as [Hx _].
+      apply Hx. change (map fst (D0 ++ (x, d) :: A)) with (ids (D0 ++ (x, d) :: A)). rewrite ids_app. apply in_or_app. right. left. reflexivity.
+    + inversion E; subst. cbn [app ids map fst] in Hnd. apply NoDup_cons_iff in Hnd. destruct Hnd as [_ Hnd].
+      destruct (IH D'' A A' x d d' Hnd H1) as (-> & -> & ->). auto.
+Qed.
+
+(** add, after a yield of [x] and any number of earlier adds [Added] behind it: the new node is linked DIRECTLY behind the
+    yielded one (in front of what was added before), next() continues with the old successor; current and prev are not
+    touched, so replace / remove keep acting on the yielded element (documented semantics), and the next call of next()
+    steps prev over all added nodes. The new node becomes the tail exactly when nothing follows it.
+    ([Added = []] is the position directly after the yield: [D ++ [(x, d)]].) *)
+Lemma siter_add_spec s it D x d Added rest a F v :
+  srep s (D ++ (x, d) :: Added ++ rest) -> slown a s (D ++ (x, d) :: Added ++ rest) F ->
+  sit_pos it (D ++ (x, d) :: Added) rest -> si_current it = x ->
   match alloc (sl_mem s) SNODE_BYTES a with
   | (Some id, a1) => exists s' it', siter_add s it v a = Ok (CC_OK, s', it', a1) /\
-        srep s' (done ++ (x, d) :: (id, v) :: rest) /\ slown a1 s' (done ++ (x, d) :: (id, v) :: rest) F /\
-        sit_pos it' (done ++ [(x, d); (id, v)]) rest /\ si_current it' = x /\ si_prev it' = si_prev it /\ ssame_hdr s s' /\ aframe a a1
-  | (None, a1) => siter_add s it v a = Ok (CC_ERR_ALLOC, s, it, a1) /\ slown a1 s (done ++ (x, d) :: rest) F /\ live a1 = live a /\
+        srep s' (D ++ (x, d) :: (id, v) :: Added ++ rest) /\ slown a1 s' (D ++ (x, d) :: (id, v) :: Added ++ rest) F /\
+        sit_pos it' (D ++ (x, d) :: (id, v) :: Added) rest /\ si_current it' = x /\ si_prev it' = si_prev it /\ ssame_hdr s s' /\ aframe a a1
+  | (None, a1) => siter_add s it v a = Ok (CC_ERR_ALLOC, s, it, a1) /\ slown a1 s (D ++ (x, d) :: Added ++ rest) F /\ live a1 = live a /\
                   aframe a a1 /\ (plan a <> [] \/ limit a < SNODE_BYTES)
   end.
 Proof.
-  intros R [Hk Ho] Hp Hl. unfold siter_add.
+  intros R [Hk Ho] Hp Hl. unfold siter_add. set (rest0 := Added ++ rest) in *.
   destruct (alloc (sl_mem s) SNODE_BYTES a) as [[id|] a1] eqn:E.
   2:{ destruct (alloc_none _ _ _ _ E Hk) as (Hl1 & Hk1 & Hf & Hw). split; [reflexivity|].
       split; [split; [assumption|unfold sowns; rewrite Hl1; exact Ho]|auto]. }
@@ -228,23 +245,33 @@ Proof.
   destruct (nodup_mid _ _ _ _ (sr_nodup _ _ R)) as (Hnd1 & Hnd2 & Hx1 & Hx2 & Hdis & _).
   pose proof (sr_nz _ _ R) as Hnz.
   assert (Hx0 : x <> 0) by (intros ->; apply Hnz; rewrite ids_app; apply in_or_app; right; left; reflexivity).
-  pose proof (sit_pos_cur _ _ _ _ _ Hx0 (nodup_snoc_of_mid _ _ _ _ (sr_nodup _ _ R)) Hp Hl) as Hpv. destruct Hp as [Hn Hi _].
+  (* the predecessor recorded in the iterator *)
+  assert (Hpv : si_prev it = last_id D 0).
+  { destruct Hp as [_ _ [[Hc _]|(D' & d' & A' & Ed & Hpv)]]; [congruence|]. rewrite Hl in Ed.
+    assert (HndD : NoDup (ids (D ++ (x, d) :: Added))).
+    { pose proof (sr_nodup _ _ R) as H. unfold rest0 in H.
+      change (D ++ (x, d) :: Added ++ rest) with (D ++ ((x, d) :: Added) ++ rest) in H. rewrite app_assoc, ids_app in H.
+      apply nodup_app in H. tauto. }
+    destruct (mid_split_unique _ _ _ _ _ _ _ HndD Ed) as (-> & _ & _). exact Hpv. }
+  destruct Hp as [Hn Hi _].
   assert (Hxid : x <> id) by (intros ->; apply Hni; rewrite ids_app; apply in_or_app; right; left; reflexivity).
-  assert (Hni1 : ~ In id (ids done)) by (intros H0; apply Hni; rewrite ids_app; apply in_or_app; left; exact H0).
-  assert (Hni2 : ~ In id (ids rest)) by (intros H0; apply Hni; rewrite ids_app; apply in_or_app; right; right; exact H0).
-  rewrite Hn, Hl.
-  set (h0 := shset (sl_heap s) id {| sn_data := v; sn_next := first_id rest 0 |}).
+  assert (Hni1 : ~ In id (ids D)) by (intros H0; apply Hni; rewrite ids_app; apply in_or_app; left; exact H0).
+  assert (Hni2 : ~ In id (ids rest0)) by (intros H0; apply Hni; rewrite ids_app; apply in_or_app; right; right; exact H0).
+  rewrite Hl.
   pose proof (sseg_mid _ _ _ _ _ _ (sr_seg _ _ R)) as Hx.
-  assert (Hx0' : shget h0 x = Some {| sn_data := d; sn_next := first_id rest 0 |}).
+  rewrite (sload_ok _ _ _ Hx0 Hx). cbn [bind sn_next].
+  set (h0 := shset (sl_heap s) id {| sn_data := v; sn_next := first_id rest0 0 |}).
+  assert (Hx0' : shget h0 x = Some {| sn_data := d; sn_next := first_id rest0 0 |}).
   { unfold h0. rewrite shget_shset_other by congruence. exact Hx. }
   rewrite (sset_next_ok _ _ _ id Hx0 Hx0'). cbn [bind sn_data].
   set (h1 := shset h0 x _).
   pose proof (sr_seg _ _ R) as Hs. apply sseg_app in Hs. cbn [sseg first_id] in Hs. destruct Hs as (Hs1 & _ & Hs2).
   do 2 eexists. split; [reflexivity|].
-  assert (Hperm : Permutation (ids (done ++ (x, d) :: (id, v) :: rest)) (id :: ids (done ++ (x, d) :: rest))).
+  assert (Hperm : Permutation (ids (D ++ (x, d) :: (id, v) :: rest0)) (id :: ids (D ++ (x, d) :: rest0))).
   { rewrite !ids_app. cbn [ids map fst].
-    change (ids done ++ x :: id :: map fst rest) with (ids done ++ [x] ++ id :: map fst rest). rewrite app_assoc.
+    change (ids D ++ x :: id :: map fst rest0) with (ids D ++ [x] ++ id :: map fst rest0). rewrite app_assoc.
     eapply Permutation_trans; [apply Permutation_sym, Permutation_middle|]. rewrite <- app_assoc. reflexivity. }
+  assert (Hnz2 : ~ In 0 (ids rest0)) by (intros H0; apply Hnz; rewrite ids_app; apply in_or_app; right; right; exact H0).
   split; [|split; [split; [assumption|eapply sowns_insert; eauto]|]].
   - constructor; cbn [supd sl_heap sl_head sl_tail sl_size sl_hdr].
     + eapply Permutation_NoDup; [apply Permutation_sym, Hperm|]. constructor; [exact Hni|apply R].
@@ -257,11 +284,9 @@ Proof.
       * eapply sseg_ext; [|exact Hs2]. intros y Hy. unfold h1, h0.
         rewrite !shget_shset_other; [reflexivity| |]; intros ->; contradiction.
     + rewrite (sr_head _ _ R), !first_id_app. reflexivity.
-    + rewrite !last_id_app. cbn [last_id]. rewrite Hi, (sr_size _ _ R), !lenN_app, !lenN_cons. cbn [lenN length N.of_nat].
-      destruct rest as [|[y dy] rt].
-      * cbn [lenN length N.of_nat last_id]. rewrite N.eqb_refl. reflexivity.
-      * replace (lenN done + (0 + 1) =? lenN done + (lenN ((y, dy) :: rt) + 1)) with false by (rewrite lenN_cons; lia).
-        rewrite (sr_tail _ _ R), !last_id_app. reflexivity.
+    + rewrite !last_id_app. cbn [last_id]. rewrite (first_nz_b rest0 Hnz2).
+      destruct rest0 as [|[y dy] rt]; [reflexivity|].
+      rewrite (sr_tail _ _ R), !last_id_app. reflexivity.
     + rewrite (sr_size _ _ R), !lenN_app, !lenN_cons. lia.
     + intros y Hy. unfold h1, h0 in Hy.
       eapply Permutation_in; [apply Permutation_sym, Hperm|].
@@ -269,9 +294,9 @@ Proof.
       destruct (N.eq_dec x y) as [<-|Hne3]; [rewrite ids_app; apply in_or_app; right; left; reflexivity|].
       rewrite !shget_shset_other in Hy by assumption. apply (sr_dom _ _ R). exact Hy.
     + apply (sr_hdr _ _ R).
-  - split; [|auto 6]. constructor; cbn [si_next si_index si_current si_prev]; [reflexivity| |].
-    + rewrite Hi, !lenN_app, !lenN_cons. cbn [lenN length N.of_nat]. lia.
-    + right. exists done, d, [(id, v)]. split; [reflexivity|exact Hpv].
+  - split; [|auto 6]. constructor; cbn [si_next si_index si_current si_prev]; [exact Hn| |].
+    + rewrite Hi, !lenN_app, !lenN_cons. lia.
+    + right. exists D, d, ((id, v) :: Added). split; [reflexivity|exact Hpv].
 Qed.
 
 (* ------------------------------------------------------------------------------------------ zip iterator *)
